@@ -289,11 +289,11 @@ struct Call {
     ucap: usize,
 }
 
-fn hist_case(kind: &str, cap: usize, calls: &[Call], bufs: &[Vec<u8>], out: &mut String) {
+fn hist_case(kind: &str, cap: usize, calls: &[Call], bufs: &[&[u8]], out: &mut String) {
     let mut arr: Vec<Header<'_>> = (0..cap).map(sentinel).collect();
     let mut uarrs: Vec<Vec<MaybeUninit<Header<'_>>>> = calls.iter().map(|c| poison_array(c.ucap)).collect();
     let mut uit = uarrs.iter_mut();
-    let last = bufs.last().map(|b| &b[..]).unwrap_or(&[]);
+    let last: &[u8] = bufs.last().copied().unwrap_or(&[]);
     let mut vl = 0usize;
     if kind == "q" {
         let mut req = Request::new(&mut arr);
@@ -548,7 +548,15 @@ fn run_line(line: &str, mode: Mode, out: &mut String) {
                 calls.push(Call { entry: f[b].parse().unwrap(), cfg: f[b + 1].parse().unwrap(), ucap: f[b + 2].parse().unwrap() });
                 bufs.push(unhex(f[b + 3]));
             }
-            hist_case(kind, cap, &calls, &bufs, out);
+            // the documented loop re-parses ONE growing buffer: whenever a call's buffer is a prefix of the
+            // longest buffer of the history it is handed out as a slice of that same allocation, so that
+            // fields and header slots left by an earlier call can alias the bytes of a later one
+            let longest = bufs.iter().max_by_key(|b| b.len()).cloned().unwrap_or_default();
+            let views: Vec<&[u8]> = bufs
+                .iter()
+                .map(|b| if longest.starts_with(b) { &longest[..b.len()] } else { &b[..] })
+                .collect();
+            hist_case(kind, cap, &calls, &views, out);
         }
         "S" => {
             let data = unhex(f[5]);
@@ -700,7 +708,7 @@ fn sweep(maxlen: usize, full: bool) {
         }
     }
     let fill = [b'a', b'v', b'n'];
-    let mut store = vec![0u8; maxlen + 256];
+    let mut store = vec![0u8; maxlen + 512];
     let base = (64 - store.as_ptr() as usize % 64) % 64;
     let mut check = |be: u8, cls: u8, align: usize, data: &[u8], evals: &mut u64, fails: &mut u64, store: &mut Vec<u8>| {
         let off = base + align;
@@ -751,6 +759,41 @@ fn sweep(maxlen: usize, full: bool) {
                         data[p2] = f;
                     }
                     data[p1] = f;
+                }
+            }
+            // adjacent pairs: every value followed by a boundary value, at every position of buffers that
+            // end in the word-at-a-time tail (16), straddle one SIMD block (33, 40) or two (70)
+            let second: [u8; 26] = [0x00, 0x01, 0x08, 0x09, 0x0a, 0x0b, 0x0c, 0x0d, 0x1f, 0x20, 0x21, 0x22, 0x3a, 0x40,
+                                    0x5b, 0x60, 0x7b, 0x7e, 0x7f, 0x80, 0x81, 0x9f, 0xa0, 0xc0, 0xfe, 0xff];
+            for len in [16usize, 33, 40, 70] {
+                if len > maxlen + 8 {
+                    continue;
+                }
+                let mut data = vec![f; len];
+                for pos in 0..len - 1 {
+                    for v1 in 0..=255u8 {
+                        data[pos] = v1;
+                        for &v2 in second.iter() {
+                            data[pos + 1] = v2;
+                            check(be, cls, pos % 32, &data, &mut evals, &mut fails, &mut store);
+                            distinct += 1;
+                        }
+                    }
+                    data[pos] = f;
+                    data[pos + 1] = f;
+                }
+            }
+            // long buffers (unrolled / multi-block fast paths): one offending byte at every position
+            for len in [127usize, 128, 129, 160, 191, 192, 193, 255, 256, 257, 300] {
+                let mut data = vec![f; len];
+                check(be, cls, len % 32, &data, &mut evals, &mut fails, &mut store);
+                for pos in 0..len {
+                    for bad in [0u8, 0x08, 0x1f, 0x7f, b'\n', b'\r', b' ', b':'] {
+                        data[pos] = bad;
+                        check(be, cls, (len + pos) % 32, &data, &mut evals, &mut fails, &mut store);
+                        distinct += 1;
+                    }
+                    data[pos] = f;
                 }
             }
             // every start alignment 0..31 x lengths around the block sizes
